@@ -180,6 +180,8 @@ class OMachine(Machine):
                 if op == '+':
                     if isinstance(l, str) and isinstance(r, int):
                         return l[r:]            # pointer into a character string
+                    if isinstance(l, Vec) and isinstance(r, int):
+                        return It(l, r)         # an array decays to a pointer to its first element
                     return l + r
                 if op == '-': return l - r
         if k == 'Cast' and e.get('ck') in ('PointerToBoolean',):
